@@ -276,7 +276,9 @@ def ufun(name, x):
     f = _ufuns.get(name)
     if f is None:
         f = _ufuns[name] = z3.Function("u_" + name, z3.RealSort(), z3.RealSort())
-    return f(z3real(x))
+    # the argument in simplified form: equal arguments written differently (-(−1)·x, 1·x) become the same term, so that
+    # equal function values are found by congruence instead of by non-linear arithmetic
+    return f(z3.simplify(z3real(x)))
 
 
 def ufun2(name, x, y):
